@@ -212,7 +212,11 @@ func (ex *Exec) havocKeys(st State, keys map[string]bool, why string) State {
 	for _, k := range sortedKeys(keys) {
 		so, ok := ex.keySort[k]
 		if !ok {
-			// never read so far: its initial version is as good as any
+			// never read so far, so its sort is unknown: leave a token that becomes a fresh
+			// array at the first read (the pre-state keeps the initial version, which old() may
+			// still refer to)
+			ex.nLazy++
+			n[k] = Term{S: fmt.Sprintf("?hv%d", ex.nLazy)}
 			continue
 		}
 		n[k] = ex.vc.fresh("hv_"+shortKey(k), so)
